@@ -28,8 +28,11 @@ RULES = {
     "optional parameter of the same name as one of its own parameters (alignment, align_threshold, size threshold, shard "
     "limit, callback, worker counts ...), the call binds it - otherwise the callee silently runs with its default and the "
     "two stages disagree about the on-disk layout (planner vs writer)",
+    "R7": "read before overwrite (shared with C08-R5): already-external tensors that stay inline (at or below the size "
+    "threshold) are loaded into memory before the data file they live in can be replaced by the write - afterwards "
+    "their offsets would be read from the new file and yield another tensor's bytes",
 }
-FLOORS = {"R1": 4, "R2": 4, "R3": 20, "R4": 1, "R5": 3, "R6": 25}
+FLOORS = {"R1": 4, "R2": 4, "R3": 20, "R4": 1, "R5": 3, "R6": 25, "R7": 1}
 EXPLANATION = (
     "Class-qualified effect summaries of the try bodies and finally blocks of the two save entry points; data-flow "
     "checks on the initializer collection loops and on the offset accumulators; table agreement between the "
@@ -392,6 +395,9 @@ def run(ctx):
     rule_r2(ctx)
     rule_r3(ctx)
     rule_r6(ctx)
+    from . import c08
+
+    c08.rule_r5(ctx, rule="R7")
     # R4: reuse C04's packing-factor rule (needs the bit-width table)
     d = c04._dict_literal(ctx, c04.EN, "_BITWIDTH_MAP")
     ctx._shared["bw"] = {c04._dt(k): v.value for k, v in zip(d.keys, d.values) if c04._dt(k)}
